@@ -206,6 +206,20 @@ Theorem C13_srv_oracle_holds_on_model : forall mac reverse fetch_key ntp_handle 
 Proof. exact srv_oracle_on_model. Qed.
 Print Assumptions C13_srv_oracle_holds_on_model.
 
+(* The listener that cannot obtain the host-host key (the DRKey daemon answers
+   with an error or with a key of a wrong length: fetch_key = None) treats the
+   request as an unauthenticated one: the oracle of that situation
+   (C13_srv_nokey_ok: addressing / forwarding clauses, and a reply to a request
+   for the service never carries the server's authenticator) holds for the
+   model on all inputs.  No hypothesis on the MAC function or the packet. *)
+Theorem C13_srv_nokey_oracle_holds_on_model : forall mac reverse fetch_key ntp_handle socks sender k nok c q oob,
+  fetch_key (keyreq_of q) = None ->
+  C13_srv_nokey_ok (s_local_port c) (s_conn_port c) socks sender q
+    (reverse (h_path_type (rx_hdr q), h_path (rx_hdr q)))
+    (srv_obs mac socks sender k nok (server_step mac reverse fetch_key ntp_handle c q oob)) = true.
+Proof. exact srv_nokey_oracle_on_model. Qed.
+Print Assumptions C13_srv_nokey_oracle_holds_on_model.
+
 (* ---- the hypotheses are satisfiable: a concrete authenticated exchange ---- *)
 (* a 16-byte checksum of the encoded MAC input: enough for the example *)
 Definition ex_mac (k : bytes) (m : macin) : bytes := (fold_left Z.add (ideal_mac k m) 0 mod 256) :: repeat 0 15.
@@ -280,3 +294,28 @@ Proof.
   split; [intro r; reflexivity|].
   repeat split; vm_compute; reflexivity.
 Qed.
+
+(* ---- authentication is opportunistic, not fail-closed (NOT part of C13 as
+        stated: C13 speaks of datagrams that CARRY the authenticator) ----
+   The model - and the code it describes, see case kind cli.strict - accepts,
+   with authentication enabled and the key in hand, a response from which the
+   authenticator has been removed, and computes an offset from it; it does the
+   same when the key could not be fetched (c_key = None although authentication
+   was asked for).  The strict oracle C13_cli_strict_ok rejects both. *)
+Definition ex_plain_reply : rx :=
+  match server_step ex_mac ex_rev ex_key ex_ntp (mkScfg 10123 10123 10 false) ex_req [] with
+  | Send _ t => deliver t false
+  | Drop _ => ex_req
+  end.
+
+Theorem C13_fail_closed_refuted_on_model :
+  (* key in hand, response without authenticator *)
+  (client_run ex_mac ex_cc false 0 [(ex_plain_reply, 0)] = CAccept 0 false /\
+   C13_cli_ok true ex_req (recomputed_mac ex_mac (repeat 0 16) ex_req)
+     [(ex_plain_reply, recomputed_mac ex_mac (repeat 0 16) ex_plain_reply)] (Some 0%nat) = true /\
+   C13_cli_strict_ok true true true [(ex_plain_reply, recomputed_mac ex_mac (repeat 0 16) ex_plain_reply)] (Some 0%nat) = false) /\
+  (* authentication asked for, no key *)
+  (client_run ex_mac (mkCcfg None 2 [10;0;0;2] 1 [10;0;0;1]) false 0 [(ex_plain_reply, 0)] = CAccept 0 false /\
+   C13_cli_strict_ok true false true [(ex_plain_reply, [])] (Some 0%nat) = false).
+Proof. repeat split; vm_compute; reflexivity. Qed.
+Print Assumptions C13_fail_closed_refuted_on_model.
